@@ -63,8 +63,10 @@ def gen_history(rng, nops):
                 ops.append("PB fmt a %d %d" % (rng.choice([0, 1, 2, 126, 127, 128, 129, 130, 1000, 1000, 70000 if rng.random() < 0.02 else 300]), seed))
         elif r < 0.82:
             ops.append("PB fmtd %d" % rng.choice([0, -1, 2147483647, -2147483648, 12345]))
-        elif r < 0.84:
+        elif r < 0.83:
             ops.append("PB fmtc %d %d %d" % (rng.choice([0, 1, 5, 60, 126]), rng.choice([0, 1, 7, 62, 64, 65, 200]), seed))
+        elif r < 0.84:
+            ops += ["PB app a 0 1", "PB fmts"]   # the buffer formatted into itself (the empty append makes sure it is terminated)
         elif r < 0.90:
             ops.append("PB reset")
         else:
@@ -164,6 +166,16 @@ def shard_fn(shard, nshards, seed, tier, exe, nhist):
             elif kind == "fmt":
                 model += pattern(n, int(op[4]), True)
                 want_ret, terminated = n, True
+            elif kind == "fmts":
+                if n == -1:
+                    # the driver skipped it: the buffer is not known to be terminated (the empty append in front failed under an injected fault after a memset)
+                    want_ret, terminated = 0, was_term
+                    sh.count("sprintbuf.self_format_skipped_unterminated")
+                else:
+                    pre = bytes(model).split(b"\0")[0]
+                    model += pre + b"|" + pre
+                    want_ret, terminated = 2 * len(pre) + 1, True
+                    sh.count("sprintbuf.buffer_formatted_into_itself" + (".long" if 2 * len(pre) + 1 > 127 else ""))
             elif kind == "fmtc":
                 sd = int(op[4])
                 bts = pattern(int(op[2]), sd, True) + b"\0" + pattern(int(op[3]), sd + 1, True)
